@@ -49,6 +49,6 @@ for c in $CHECKS; do
   grep -A2 "^VIOLATION" /tmp/seedcheck-$$.log | grep "key=" | sort | uniq | head -8
   [ $rc = 2 ] && tail -20 /tmp/seedcheck-$$.log
 done
-git -C /repo checkout -- .
+git -C /repo checkout -- .; rm -rf /verif/replays
 git -C /repo status --porcelain
 rm -f /tmp/seedtest-$$.log /tmp/seeddemo-$$.log /tmp/seeddemo2-$$.log /tmp/seedcheck-$$.log
